@@ -115,10 +115,17 @@ where
     if request.method.eq_ignore_ascii_case("CONNECT") {
         let protocol = request.header("Proxy-Protocol", "tcp");
         // let host = request.header("Host", "0.0.0.0:0");
-        let target = request
-            .resource
-            .parse()
-            .with_context(|| format!("failed to parse target address: {}", request.resource))?;
+        let target = match request.resource.parse() {
+            Ok(target) => target,
+            Err(e) => {
+                // like the other requests this listener cannot serve: tell the client before closing
+                HttpResponse::new(400, "Bad Request")
+                    .write_to(socket)
+                    .await?;
+                return Err(e)
+                    .with_context(|| format!("failed to parse target address: {}", request.resource));
+            }
+        };
         if protocol.eq_ignore_ascii_case("tcp") {
             ctx_lock.set_target(target).set_callback(ConnectCallback);
         } else if protocol.eq_ignore_ascii_case("udp") {
@@ -138,11 +145,19 @@ where
             }
 
             if !inline {
-                ctx_lock.set_client_frames(
-                    create_frames(channel, session_id)
-                        .await
-                        .context("create frames")?,
-                );
+                match create_frames(channel, session_id).await {
+                    Ok(frames) => {
+                        ctx_lock.set_client_frames(frames);
+                    }
+                    Err(e) => {
+                        // a channel this listener cannot provide
+                        let socket = ctx_lock.borrow_client_stream().unwrap();
+                        HttpResponse::new(400, "Bad Request")
+                            .write_to(socket)
+                            .await?;
+                        return Err(e).context("create frames");
+                    }
+                }
             }
         } else {
             HttpResponse::new(400, "Bad Request")
